@@ -208,6 +208,9 @@ class Ops:
     def float_result(self, it, r):
         """a real result as a python float: overflow to +-inf is a fork, not an if-term"""
         r = simp(r)
+        if it.mode == 'spec':
+            # specification arithmetic is mathematical: no overflow
+            return SV(V.FloatV(r))
         if it.no_float_overflow:
             # contract option assume_no_float_overflow: intermediate results stay within +-float_max (listed assumption)
             it.assume(z3.And(r <= FMAXR, r >= -FMAXR))
@@ -286,7 +289,7 @@ class Ops:
         q = it.fresh('quot', z3.RealSort())
         if not z3.is_rational_value(simp(fy)):
             it.nonlinear = True
-        it.assume(q * fy == fx)
+        it.assume_axiom(z3.Implies(fy != 0, q * fy == fx))      # definition of the fresh quotient
         return self.float_result(it, q)
 
     def binop(self, it, op, a, b, inplace=False):
